@@ -74,6 +74,8 @@ PROP = {
         "bisync_key_formats": KEY_FORMATS,
         "bisync_slot_tag_format": "slot-%x",
         "bisync_slot_tag_init_body": SLOT_TAG_INIT,
+        # the table is published by sync.Once before any caller reads it (seeded C18-r8-m1: CompareAndSwap instead of Once)
+        "bisync_slot_tag_body": '{ if slot >= redisClusterSlots { panic(fmt.Sprintf("invalid redis cluster slot: %d", slot)) } if tag, ok := bisyncSlotTagCache.Load(slot); ok { return tag.(string) } bisyncSlotTagsOnce.Do(initBisyncSlotTags) tag := bisyncSlotTagsBySlot[slot] bisyncSlotTagCache.Store(slot, tag) return tag }',
         "bisync_cpname_body": CPNAME_BODY,
         # Cluster.transactionEnable is assigned in the MULTI / EXEC cases of chooseNodeWithCmdAndKeys and nowhere else
         "c18_txn_enable_sites": [
@@ -101,7 +103,10 @@ PROP = {
         "c18_commandgetkeys_calls": {"calls": ["cluster.getRandomNode", "make", "len", "append", "append", "cluster.do", "common.Strings"],
                                      "loops_or_goroutines": 0},
     },
-    "harness": [{"name": "C18", "pkg": "./syncer/", "test": "TestVerifC18"}],
+    "harness": [{"name": "C18", "pkg": "./syncer/", "test": "TestVerifC18"},
+                # first use of the process-global slot-tag table by 8 goroutines at once, one fresh process per case (the test re-executes
+                # its own binary); thorough tier: built with the race detector, a race reported by a child is a violation
+                {"name": "C18first", "pkg": "./syncer/", "test": "TestVerifC18First", "go_flags_thorough": ["-race"]}],
     "driver": "drv_C18",
     "rule": "all 16384 slot tags (checkpoint.BisyncSlotTag vs regenerated table vs bitwise HASH_SLOT) and every control-key constructor on them; "
             "generated transactions of 1-4 commands over 31 command shapes written from the Redis command reference (SET/DEL/MSET/RENAME/"
@@ -151,6 +156,9 @@ PROP = {
             "repaired 975110c) are drawn by the general generator too and pinned as regression cases (corpus/C18/findings); 400 transactions with movablekeys commands the tables have no row for "
             "(ZUNION / ZINTER / ZDIFF / SINTERCARD / ZINTERCARD / EVAL_RO / EVALSHA_RO: resolved by the target's COMMAND GETKEYS = Redis's genericGetKeys, or refused). (e) a send-loop case is judged when every connection the run opened has been closed (= every lane worker / receiver / parser of it has exited), an explicit "
             "condition instead of a quiet window. "
+            "Harness C18first (vf_c18_first_test.go, seeded C18-r8-m1): 12 fresh processes per quick run (60 thorough, built with -race), GOMAXPROCS 1/2/4/8; as the first thing the "
+            "process does 8 goroutines released by one barrier ask for slot tags (checkpoint.BisyncSlotTag / the real builder on a key of a known slot); every answer checked: tag non-empty, "
+            "HASH_SLOT({tag}) = slot, marker / latest / index / commit-record keys on the slot (monitor first-use-slot-tag, replay = child seed + GOMAXPROCS); each tag also an op c18 tag. "
             "distinct_nontrivial = distinct accepted single-slot transactions",
     "trusted": ["Redis Cluster HASH_SLOT as transcribed in Model/Slot.lean (C11)",
                 "key positions of the 81 generator command shapes, written from the Redis command reference (harness oracle only)",
@@ -166,6 +174,9 @@ PROP = {
                     "Commands of the result) is REGENERATED from syncer/bisync.go on every run (Gen/FnBisyncUnitBuild.lean, locals resolved by definition not spelling) and proved equal to the "
                     "hand model for all inputs (gen_buildUnit_eq_model): an edit of a guard breaks the proof, a renamed local or else{if} changes nothing; skipped by the translator and pinned as "
                     "facts: the nil-resolver default, the error literals, the other fields of the result",
+                    "slotTag_hits_slot / unit_single_slot speak of the TABLE; that every caller of BisyncSlotTag reads the finished table (the build is published by sync.Once before any "
+                    "read) is not modelled: it is exercised by harness C18first (first use by 8 goroutines in fresh processes, under -race in the thorough tier) and pinned by the source facts "
+                    "bisync_slot_tag_body / bisync_slot_tag_init_body",
                     "the resolver of one parser run is a function of the command: source fact c18_resolver_closure_state (what the closure newBisyncCommandKeyResolver returns declares outside "
                     "itself, writes, indexes and calls) + sequences through one instance; the cluster client's commandGetKeys asks exactly one node per query: source fact c18_commandgetkeys_calls + "
                     "the real function run against the node doubles",
